@@ -568,6 +568,70 @@ T('C10', 'twin-unarmor-compound-condition-raise', TY, "        if m['crc'] is no
   "        if m['crc']:\n            m['crc'] = Header.bytes_to_int(base64.b64decode(m['crc'].encode()))\n        if m['crc'] is not None and not (Armorable.crc24(m['body']) == m['crc']):\n            import logging\n            logging.getLogger(__name__).warning('Incorrect crc24')")
 M('C10', 'crc-compound-condition-or', TY, "            if Armorable.crc24(m['body']) != m['crc']:", "            if m['magic'] == 'SIGNATURE' and Armorable.crc24(m['body']) != m['crc']:", 'C10.6')
 
+
+# ---- stress patches written by independent sub-agents (selftest/patches/G9-*.diff), turned into text edits hunk by hunk
+def _edits_from_diff(name):
+    import os, re
+    path = os.path.join(os.path.dirname(os.path.abspath(__file__)) if '__file__' in globals() else 'selftest', 'patches', name)
+    if not os.path.exists(path):
+        path = os.path.join('selftest', 'patches', name)
+    edits, cur, old, new = [], None, [], []
+
+    def flush():
+        if cur is not None and (old or new) and old != new:
+            edits.append((cur, ''.join(old), ''.join(new)))
+    with open(path, encoding='utf-8') as fh:
+        lines = fh.read().splitlines(keepends=True)
+    for l in lines:
+        if l.startswith('--- '):
+            continue
+        if l.startswith('+++ '):
+            flush()
+            old, new = [], []
+            cur = re.sub(r'^b/', '', l[4:].split('\t')[0].strip())
+            continue
+        if l.startswith('@@'):
+            flush()
+            old, new = [], []
+            continue
+        if cur is None or l.startswith('\\'):
+            continue
+        if l.startswith('-'):
+            old.append(l[1:])
+        elif l.startswith('+'):
+            new.append(l[1:])
+        elif l.startswith(' ') or l == '\n':
+            old.append(l[1:] if l.startswith(' ') else l)
+            new.append(l[1:] if l.startswith(' ') else l)
+    flush()
+    return edits
+
+
+def _TD(prop, id, name):
+    e = _edits_from_diff(name)
+    T(prop, id, e[0][0], e[0][1], e[0][2], more=e[1:])
+
+
+def _MD(prop, id, name, rule):
+    e = _edits_from_diff(name)
+    M(prop, id, e[0][0], e[0][1], e[0][2], rule, more=e[1:])
+
+
+for _n, _what in (('A-twin01', 'crc-test-before-shift-textwrap'), ('A-twin02', 'crc-variant-writer-variant'), ('A-twin07', 'writer-helpers-head-tail-constants'),
+                  ('A-twin08', 'writer-percent-template-findall'), ('A-twin10', 'writer-format-map-standard-b64encode')):
+    _TD('C10', 'stress-%s-%s' % (_n, _what), 'G9-%s.diff' % _n)
+for _n, _what, _r in (('A-mut01', 'crc-width-pad-dropped', 'C10.2'), ('A-mut02', 'header-lines-joined-by-newline', 'C10.7'), ('A-mut04', 'crc-restarts-per-slice', 'C10.2'),
+                      ('A-mut06', 'crc-greater-than-instead-of-bit-test', 'C10.1'), ('A-mut07', 'crc-urlsafe-alphabet', 'C10.2'), ('A-mut08', 'crc-mask-20-bits', 'C10.1')):
+    _MD('C10', 'stress-%s-%s' % (_n, _what), 'G9-%s.diff' % _n, _r)
+for _i, _what in enumerate(('local-none-in-tuple-fstring', 'shared-helper-with-predicates', 'class-constants-inverted-branches', 'packet-generator-if-chain-labels',
+                            'demorgan-iter-sentinel-loop', 'nested-ifs-percent-messages', 'flag-early-return', 'per-class-armor-ok-predicate',
+                            'itemgetter-get-find', 'error-factory-dict-lookup-label'), 1):
+    _TD('C10', 'stress-C-twin%02d-%s' % (_i, _what), 'G9-C-twin%02d.diff' % _i)
+for _i, (_what, _r) in enumerate((('message-labels-substring', 'C10.5'), ('key-word-block', 'C10.5'), ('signature-and-or', 'C10.5'), ('check-after-first-packet', 'C10.5'),
+                                  ('key-check-only-warns', 'C10.5'), ('cleartext-or-empty', 'C10.5'), ('cleartext-unescaped-twice', 'C10.5'),
+                                  ('key-magic-via-is-public', 'C10.4')), 1):
+    _MD('C10', 'stress-C-mut%02d-%s' % (_i, _what), 'G9-C-mut%02d.diff' % _i, _r)
+
 # =============================================================================================== C11
 M('C11', 'escape-two-spaces', PGP, "        return re.subn(r'^-', '- -', text, flags=re.MULTILINE)[0]", "        return re.subn(r'^-', '-  -', text, flags=re.MULTILINE)[0]", 'C11.1')
 M('C11', 'unescape-no-multiline', PGP, "        return re.subn(r'^- ', '', text, flags=re.MULTILINE)[0]", "        return re.subn(r'^- ', '', text)[0]", 'C11.1')
